@@ -228,7 +228,16 @@ double toDouble(const std::string& s, char dec, char scientificNotation)
 {
   if (!isDecimalNumber(s, dec, scientificNotation))
     throw Exception("TextTools::toDouble(). Invalid number specification: " + s);
-  return fromString<double>(s);
+  // The stream only knows '.' and 'e': translate the caller's characters.
+  std::string t(s);
+  for (auto& c : t)
+  {
+    if (c == dec)
+      c = '.';
+    else if (c == scientificNotation)
+      c = 'e';
+  }
+  return fromString<double>(t);
 }
 
 /******************************************************************************/
